@@ -56,3 +56,37 @@ Theorem C19_branch_to_missing_line_is_reported : forall before n pb p pa after l
   In (mkErr E_UndefinedLine (Some n) c) (snd (fold_left (lstep (line_syms pls 0)) (line_refs pls 0) (prog_ops pls, []))).
 Proof. exact branch_to_missing_line_is_reported. Qed.
 Print Assumptions C19_branch_to_missing_line_is_reported.
+
+(* ---- the parser's columns are the character ranges of the tokens in the listed text (Proofs/ParseCols.v) ---- *)
+From BL Require Import Lang.Token Lang.Parse Proofs.ParseCols.
+
+(* every token is handed to the parser with the range it occupies in the concatenation of the token texts, blanks included *)
+Theorem C19_token_range : forall all st t st', Pos all st -> p_next st = (Some t, st') ->
+  Pos all st' /\ exists before after, all = before ++ t :: after /\ p_cs st' = widths before /\ p_ce st' = widths before + width t.
+Proof. exact next_gives_range. Qed.
+Print Assumptions C19_token_range.
+
+(* wherever the statement parser stops it stands on a token boundary of the line (or behind its end) *)
+Theorem C19_parser_stays_aligned : forall all fuel b st l st', At all st -> statements fuel b st = Ok (l, st') -> At all st'.
+Proof. exact parser_stays_aligned. Qed.
+Print Assumptions C19_parser_stays_aligned.
+
+Theorem C19_line_number_operand_range : forall all st e st', Pos all st -> expect_line_number st = Ok (e, st') ->
+  Pos all st' /\ exists before l s after n,
+    all = before ++ TLit l :: after /\ is_lnum_lit l = Some s /\ parse_u16 s = Some n /\ n <= 65529
+    /\ e = lnum_expr (widths before, widths before + lenN s) n.
+Proof. exact line_number_operand_range. Qed.
+Print Assumptions C19_line_number_operand_range.
+
+(* the whole line, every statement form: each branch target of GOTO, GOSUB, ON..GOTO / GOSUB, THEN n, ELSE n, RESTORE n, RUN n
+   carries exactly the range of its number token, each WHILE and WEND exactly the range of its keyword -- at any nesting of IF *)
+Theorem C19_parse_columns_exact : forall n toks l, parse n toks = Ok l -> good_stmts toks l.
+Proof. exact parse_columns_exact. Qed.
+Print Assumptions C19_parse_columns_exact.
+
+Example C19_columns_demo :
+  match parse None cols_demo_toks with
+  | Ok l => map (cut (tokens_str cols_demo_toks)) (branch_cols l) = [[49; 48; 48]; [50; 48; 48; 48]]%list /\ branch_cols l = [(24, 27); (39, 43)]%list
+  | _ => False
+  end.
+Proof. exact cols_demo. Qed.
